@@ -57,6 +57,8 @@ class Inst:
     cls: str
     args: tuple
     kwargs: tuple = ()
+    site: str = ''      # creation site: two instances built with equal arguments at different
+                        # places are different objects (``is``), e.g. the two HintSane sentinels
 
     def __repr__(self):
         a = ', '.join([repr(x) for x in self.args] + [f'{k}={v!r}' for k, v in self.kwargs])
@@ -70,8 +72,18 @@ class Inst:
 
 
 class FuncVal:
-    def __init__(self, module: str, qualname: str, node: ast.AST, closure: dict | None = None):
+    def __init__(self, module: str, qualname: str, node: ast.AST, closure: dict | None = None,
+                 owner: 'ClassVal | None' = None):
         self.module, self.qualname, self.node, self.closure = module, qualname, node, closure
+        self.owner = owner
+
+    def decorators(self) -> list[str]:
+        out = []
+        for d in getattr(self.node, 'decorator_list', []):
+            if isinstance(d, ast.Call):
+                d = d.func
+            out.append(ast.unparse(d))
+        return out
 
     @property
     def qual(self):
@@ -111,12 +123,52 @@ class ClassVal:
             self._attrs = {}
             env = _Env(self._folder, self._folder.repo.mod(self.module),
                        self._folder.module_env(self.module), self._attrs, depth=1)
+            env.qualprefix = self.name + '.'
+            env.is_class_body = True
             for st in self.node.body:
                 try:
                     env.exec_stmt(st)
-                except (_Abort, _Return):
+                except (_Abort, _Return, _Raise):
                     pass
+            for v in self._attrs.values():
+                if isinstance(v, FuncVal) and v.owner is None:
+                    v.owner = self
         return self._attrs
+
+    def bases(self) -> list:
+        out = []
+        m = self._folder.repo.mod(self.module)
+        for b in self.node.bases:
+            v = self._folder.eval_in(m, b)
+            out.append(v)
+        return out
+
+    def mro(self) -> list['ClassVal']:
+        out, seen = [], set()
+
+        def rec(c):
+            if c in seen:
+                return
+            seen.add(c)
+            out.append(c)
+            for b in c.bases():
+                if isinstance(b, ClassVal):
+                    rec(b)
+        rec(self)
+        return out
+
+    def find(self, attr: str, after: 'ClassVal | None' = None):
+        """Attribute through the (linearised depth-first) class hierarchy."""
+        mro = self.mro()
+        if after is not None and after in mro:
+            mro = mro[mro.index(after) + 1:]
+        for c in mro:
+            if attr in c.attrs:
+                return c.attrs[attr]
+        return _MISSING
+
+    def derives_from(self, other: 'ClassVal') -> bool:
+        return other in self.mro()
 
     def base_names(self) -> list[str]:
         return [ast.unparse(b) for b in self.node.bases]
@@ -143,6 +195,14 @@ class BoundMethod:
 
 class _Abort(Exception):
     pass
+
+
+class _Raise(Exception):
+    """An interpreted ``raise`` statement was reached (class name if resolvable)."""
+
+    def __init__(self, what, where=''):
+        super().__init__(f'raise {what} at {where}')
+        self.what, self.where = what, where
 
 
 class _Return(Exception):
@@ -203,6 +263,11 @@ class Folder:
         self.max_depth = max_depth
         self._envs: dict[str, dict] = {}
         self._done: set[str] = set()
+        self.strict = False                      # abstract interpretation mode: do not swallow aborts
+        self.interpret_classes: set[str] = set()  # class quals whose __init__ is interpreted
+        self.stubs: dict[str, object] = {}        # function qual -> python callable(env, args, kwargs)
+        self.isinstance_hook = None
+        self.builtin_hook = None
 
     # ------------------------------------------------------------------
     def module_env(self, modname: str) -> dict:
@@ -215,10 +280,10 @@ class Folder:
             return env
         env['__name__'] = modname
         ex = _Env(self, m, env, env, depth=0)
-        for st in m.tree.body:
+        for st in m.raw_tree.body:
             try:
                 ex.exec_stmt(st)
-            except _Abort as a:
+            except (_Abort, _Raise) as a:
                 for nm in _assigned_names(st):
                     env[nm] = Unknown(f'{m.relpath}:{st.lineno}: {a}')
             except (_Return, _Break, _Continue):
@@ -244,13 +309,13 @@ class Folder:
         env = _Env(self, m, self.module_env(m.name), dict(local or {}), depth=1)
         try:
             return env.ev(expr)
-        except _Abort as a:
+        except (_Abort, _Raise) as a:
             return Unknown(str(a))
 
     def call(self, fn: FuncVal, args=(), kwargs=None, depth=1):
         try:
             return _call_function(self, fn, list(args), dict(kwargs or {}), depth)
-        except _Abort as a:
+        except (_Abort, _Raise) as a:
             return Unknown(str(a))
 
 
@@ -270,6 +335,9 @@ class _Env:
         self.f, self.m, self.g, self.l, self.depth = folder, module, globs, local, depth
         self.qualprefix = qualprefix
         self.global_names: set[str] = set()
+        self.is_class_body = False
+        self.owner = None        # ClassVal owning the method being interpreted (for super())
+        self.self_name = None
 
     # -- names --------------------------------------------------------
     def lookup(self, name: str):
@@ -306,7 +374,7 @@ class _Env:
                 return
             try:
                 self.ev(st.value)
-            except _Abort:
+            except (_Abort, _Raise):
                 if self.depth == 0:
                     return
                 raise
@@ -333,7 +401,8 @@ class _Env:
             self.exec_import(st)
         elif isinstance(st, (ast.FunctionDef, ast.AsyncFunctionDef)):
             q = f'{self.qualprefix}{st.name}'
-            self.store(st.name, FuncVal(self.m.name, q, st, closure=self.l if self.depth else None))
+            self.store(st.name, FuncVal(self.m.name, q, st,
+                                        closure=self.l if (self.depth and not self.is_class_body) else None))
         elif isinstance(st, ast.ClassDef):
             self.store(st.name, ClassVal(self.m.name, f'{self.qualprefix}{st.name}', st, self.f))
         elif isinstance(st, ast.If):
@@ -428,9 +497,25 @@ class _Env:
                     self.assign(it.optional_vars, Unknown('with target') if not isinstance(v, Unknown) else v)
             self.exec_block(st.body)
         elif isinstance(st, ast.Assert):
-            pass
+            # in abstract-interpretation mode an assertion that is *definitely* false stops the
+            # interpreted code exactly like the real one; undecidable assertions are skipped
+            if self.f.strict and self.depth > 0:
+                try:
+                    v = self.ev(st.test)
+                    ok = True if isinstance(v, Unknown) else self.truth(v)
+                except Exception:
+                    ok = True
+                if not ok:
+                    raise _Raise('AssertionError', f'{self.m.relpath}:{st.lineno}')
         elif isinstance(st, ast.Raise):
-            raise _Abort('raise reached')
+            what = None
+            if st.exc is not None:
+                f = st.exc.func if isinstance(st.exc, ast.Call) else st.exc
+                try:
+                    what = self.ev(f)
+                except _Abort:
+                    what = ast.unparse(f)
+            raise _Raise(what, f'{self.m.relpath}:{st.lineno}')
         elif isinstance(st, ast.TypeAlias):
             for nm in _assigned_names(st):
                 self.store(nm, Unknown('type alias'))
@@ -440,7 +525,9 @@ class _Env:
     def _ev_or_unknown(self, e, st):
         try:
             return self.ev(e)
-        except _Abort as a:
+        except (_Abort, _Raise) as a:
+            if self.f.strict and self.depth > 0:
+                raise
             return Unknown(f'{self.m.relpath}:{getattr(st, "lineno", 0)}: {a}')
 
     def exec_import(self, st):
@@ -512,7 +599,7 @@ class _Env:
     def truth(self, v) -> bool:
         if isinstance(v, Unknown):
             raise _Abort(f'branch on unknown: {v.reason}')
-        if isinstance(v, (Sym, Inst, FuncVal, ClassVal, ModuleVal, BoundMethod, _ObjVal)):
+        if isinstance(v, (Sym, Inst, FuncVal, ClassVal, ModuleVal, BoundMethod, _ObjVal, _PyCallable)):
             if isinstance(v, Sym) and v.kind == 'builtin' and v.name in ('None', 'False'):
                 return False
             return True
@@ -680,7 +767,10 @@ class _Env:
         if isinstance(k, Unknown):
             return k
         if isinstance(o, _IndentTable):
-            return o[k]
+            try:
+                return o[k]
+            except Exception as ex:
+                raise _Abort(f'subscript failed: {ex!r}')
         if isinstance(o, (str, tuple, list, dict, range)):
             try:
                 return o[k]
@@ -736,9 +826,27 @@ class _Env:
         if isinstance(o, _ObjVal):
             if attr in o.attrs:
                 return o.attrs[attr]
-            v = self.getattr(o.cls, attr)
+            if attr == '__class__':
+                return o.cls
+            v = o.cls.find(attr)
+            if v is _MISSING:
+                raise _Abort(f'{o.cls.name} object has no attribute {attr}')
             if isinstance(v, FuncVal):
+                decs = v.decorators()
+                if 'property' in decs or any(d.endswith('property_cached') for d in decs):
+                    return _call_function(self.f, v, [o], {}, self.depth + 1)
+                if 'staticmethod' in decs:
+                    return v
                 return BoundMethod(o, v)
+            return v
+        if isinstance(o, _SuperVal):
+            v = o.obj.cls.find(attr, after=o.owner)
+            if v is _MISSING:
+                if attr == '__init__':
+                    return _NOOP
+                raise _Abort(f'super() has no attribute {attr}')
+            if isinstance(v, FuncVal):
+                return BoundMethod(o.obj, v)
             return v
         if isinstance(o, Inst):
             v = o.get(attr, _MISSING)
@@ -753,6 +861,13 @@ class _Env:
             if attr == '__name__':
                 return o.qualname.split('.')[-1]
             return Unknown(f'attribute {attr} of function')
+        if isinstance(o, AObj):
+            if hasattr(o, attr):
+                v = getattr(o, attr)
+                if callable(v) and not isinstance(v, (FuncVal, ClassVal)):
+                    return _PyCallable(v)
+                return v
+            raise _Abort(f'abstract object {o!r} has no attribute {attr}')
         if isinstance(o, _CONCRETE) or isinstance(o, _IndentTable):
             if hasattr(o, attr):
                 return BoundMethod(o, attr)
@@ -834,11 +949,32 @@ class _Env:
 
     def apply(self, fn, args, kwargs, e=None):
         if isinstance(fn, Unknown):
+            if self.f.strict and self.depth > 0:
+                raise _Abort(f'call of unknown callee {ast.unparse(e.func) if e is not None else "?"} ({fn.reason})')
             return Unknown(f'call of unknown ({fn.reason})')
         if isinstance(fn, Sym):
             if fn.kind == 'builtin':
+                if self.f.builtin_hook is not None:
+                    r = self.f.builtin_hook(fn.name, args, kwargs)
+                    if r is not NotImplemented:
+                        return r
+                if fn.name == 'super' and not args:
+                    slf = self.l.get(self.self_name) if self.self_name else None
+                    if isinstance(slf, _ObjVal) and self.owner is not None:
+                        return _SuperVal(self.owner, slf)
+                    return Unknown('super() outside an interpreted method')
                 if fn.name == 'isinstance':
+                    if self.f.isinstance_hook is not None and len(args) == 2:
+                        r = self.f.isinstance_hook(args[0], args[1])
+                        if r is not None:
+                            return r
+                    if len(args) == 2 and isinstance(args[0], _ObjVal) and isinstance(args[1], ClassVal):
+                        return args[0].cls.derives_from(args[1])
+                    if len(args) == 2 and isinstance(args[0], str) and args[1] == Sym('builtin', 'str'):
+                        return True
                     return Unknown('isinstance')
+                if fn.name == 'callable' and len(args) == 1:
+                    return isinstance(args[0], (FuncVal, BoundMethod, ClassVal)) or Unknown('callable')
                 if fn.name == 'object' and not args:
                     return Inst('object', (f'{self.m.relpath}:{getattr(e, "lineno", 0)}',))
                 impl = _SAFE_BUILTINS.get(fn.name)
@@ -861,6 +997,9 @@ class _Env:
             return Unknown(f'call of external {fn.name}')
         if isinstance(fn, BoundMethod):
             if isinstance(fn.name, FuncVal):  # method of an abstract object
+                stub = self.f.stubs.get(fn.name.qual)
+                if stub is not None:
+                    return stub(self, [fn.obj] + args, kwargs)
                 return _call_function(self.f, fn.name, [fn.obj] + args, kwargs, self.depth + 1)
             o = fn.obj
             if isinstance(o, str) and fn.name in ('format', 'format_map'):
@@ -874,11 +1013,22 @@ class _Env:
             try:
                 r = getattr(o, fn.name)(*args, **kwargs)
             except Exception as ex:
+                if isinstance(o, str) and fn.name in ('format', 'format_map') and self.f.strict:
+                    # the interpreted code would raise here too (missing / unknown template field)
+                    raise _Raise(f'{type(ex).__name__}({ex}) from str.format of a code template',
+                                 f'{self.m.relpath}:{getattr(e, "lineno", 0)}')
                 raise _Abort(f'{type(o).__name__}.{fn.name}() failed: {ex!r}')
             if type(r).__name__ in ('dict_items', 'dict_keys', 'dict_values'):
                 r = tuple(r)
             return r
+        if fn is _NOOP:
+            return None
+        if isinstance(fn, _PyCallable):
+            return fn.fn(*args, **kwargs)
         if isinstance(fn, FuncVal):
+            stub = self.f.stubs.get(fn.qual)
+            if stub is not None:
+                return stub(self, args, kwargs)
             if self.depth >= self.f.max_depth:
                 return Unknown('inlining depth')
             return _call_function(self.f, fn, args, kwargs, self.depth + 1)
@@ -901,18 +1051,48 @@ def _as_load(t: ast.AST) -> ast.AST:
     return t2
 
 
-class _IndentTable(dict):
-    """``INDENT_LEVEL_TO_CODE``-style dictionary with a ``__missing__`` that is derived
-    from the class body (``key * CONSTANT``)."""
+class _DictObj(dict):
+    """Instance of a repository ``dict`` subclass whose ``__missing__`` is interpreted
+    (the indentation table, the placeholder and pith-variable-name tables)."""
 
-    def __init__(self, unit: str):
+    def __init__(self, cls, folder, missing):
         super().__init__()
-        self.unit = unit
+        self.cls, self._folder, self._missing = cls, folder, missing
 
     def __missing__(self, k):
-        if not isinstance(k, int):
-            raise KeyError(k)
-        return self.unit * k
+        try:
+            return _call_function(self._folder, self._missing, [self, k], {}, 2)
+        except (_Abort, _Raise) as ex:
+            raise KeyError(k) from ex
+
+    def __repr__(self):
+        return f'<{self.cls.name} {dict.__repr__(self)}>'
+
+
+_IndentTable = _DictObj
+
+
+class AObj:
+    """Base class of analyser-level abstract objects (abstract hints, configurations):
+    attribute access in interpreted code reads the Python attribute."""
+
+
+class _SuperVal:
+    def __init__(self, owner, obj):
+        self.owner, self.obj = owner, obj
+
+
+class _PyCallable:
+    def __init__(self, fn):
+        self.fn = fn
+
+
+class _NoOp:
+    def __repr__(self):
+        return '<noop>'
+
+
+_NOOP = _NoOp()
 
 
 class _ObjVal:
@@ -927,25 +1107,23 @@ class _ObjVal:
 
 
 def _construct(env: _Env, cls: ClassVal, args, kwargs, e):
-    # dict subclass with __missing__ returning ``UNIT * key`` (the indentation table)
+    stub = env.f.stubs.get(cls.qual)
+    if stub is not None:
+        return stub(env, args, kwargs)
     bases = cls.base_names()
     if any(b == 'dict' or b.startswith('Dict') for b in bases):
-        for st in cls.node.body:
-            if isinstance(st, ast.FunctionDef) and st.name == '__missing__':
-                rets = [n for n in ast.walk(st) if isinstance(n, ast.Return) and n.value is not None]
-                if rets:
-                    key = st.args.args[1].arg
-                    # find ``X * key`` / ``key * X`` (possibly via a local)
-                    for n in ast.walk(st):
-                        if isinstance(n, ast.BinOp) and isinstance(n.op, ast.Mult):
-                            for a, b in ((n.left, n.right), (n.right, n.left)):
-                                if isinstance(b, ast.Name) and b.id == key:
-                                    unit = env.f.eval_in(env.f.repo.mod(cls.module), a)
-                                    if isinstance(unit, str):
-                                        return _IndentTable(unit)
+        missing = cls.find('__missing__')
+        if isinstance(missing, FuncVal) and not args and not kwargs:
+            return _DictObj(cls, env.f, missing)
         return Unknown(f'dict subclass {cls.name}')
     if cls.is_enum():
         return Unknown('enum call')
+    if cls.qual in env.f.interpret_classes:
+        obj = _ObjVal(cls)
+        init = cls.find('__init__')
+        if isinstance(init, FuncVal):
+            _call_function(env.f, init, [obj] + list(args), dict(kwargs), env.depth + 1)
+        return obj
     if not all(is_known(a) for a in list(args) + list(kwargs.values())):
         return Unknown(f'{cls.name}(…) with unknown arguments')
     try:
@@ -953,7 +1131,8 @@ def _construct(env: _Env, cls: ClassVal, args, kwargs, e):
         hash(tuple(kwargs.values()))
     except TypeError:
         return Unknown(f'{cls.name}(…) with unhashable arguments')
-    return Inst(cls.qual, tuple(args), tuple(sorted(kwargs.items())))
+    site = f'{env.m.relpath}:{ast.unparse(e)[:80]}' if e is not None else ''
+    return Inst(cls.qual, tuple(args), tuple(sorted(kwargs.items())), site)
 
 
 def _call_function(folder: Folder, fn: FuncVal, args: list, kwargs: dict, depth: int):
@@ -968,6 +1147,8 @@ def _call_function(folder: Folder, fn: FuncVal, args: list, kwargs: dict, depth:
     params = [p.arg for p in a.posonlyargs + a.args]
     defaults = a.defaults
     env = _Env(folder, m, folder.module_env(fn.module), local, depth, qualprefix=fn.qualname + '.')
+    env.owner = fn.owner
+    env.self_name = params[0] if (params and fn.owner is not None) else None
     if len(args) > len(params) and not a.vararg:
         raise _Abort('too many positional arguments')
     for p, v in zip(params, args):
@@ -985,7 +1166,7 @@ def _call_function(folder: Folder, fn: FuncVal, args: list, kwargs: dict, depth:
             if j >= 0:
                 local[p] = env._ev_or_unknown(defaults[j], node)
             else:
-                raise _Abort(f'missing argument {p}')
+                raise _Abort(f'missing argument {p} in call of {fn.qual}')
     for p, d in zip(a.kwonlyargs, a.kw_defaults):
         if p.arg in kwargs:
             local[p.arg] = kwargs.pop(p.arg)
